@@ -583,7 +583,9 @@ func (s *Session) nextMarker() (string, string) {
 }
 
 func (s *Session) waitMarker(path string) error {
-	deadline := time.Now().Add(10 * time.Second)
+	// 30 s: the marker needs a fork+exec of the shell by fzf; on a machine running several suites at once that alone
+	// has been seen to take longer than 10 s (five sessions of one thorough run, none reproducible)
+	deadline := time.Now().Add(30 * time.Second)
 	for i := 0; ; i++ {
 		if _, err := os.Stat(path); err == nil {
 			os.Remove(path)
@@ -593,7 +595,7 @@ func (s *Session) waitMarker(path string) error {
 			return ErrGone
 		}
 		if time.Now().After(deadline) {
-			return errors.New("sync marker not seen within 10 s")
+			return errors.New("sync marker not seen within 30 s")
 		}
 		if i < 200 {
 			time.Sleep(100 * time.Microsecond)
